@@ -20,7 +20,7 @@ Inductive atom :=
   | AHas (tags : list string) | AHasAtLeast (tags : list string)
   | AInstr (names : list string)
   | ABeatIn (l : list Z) | ABeatBetween (a b : Z) | ADurIn (l : list Z) | ADurBetween (a b : Z) | ABeatPlayingIn (l : list Z)
-  | AChordBeatIn (l : list Z) | AChordBeatBetween (a b : Z) | AChordDurIn (l : list Z)
+  | AChordBeatIn (l : list Z) | AChordBeatBetween (a b : Z) | AChordDurIn (l : list Z) | AChordBeatPlayingIn (l : list Z)
   | AModeIn (l : list mode) | ADegreeIn (l : list Z) | AExtIn (l : list string) | ATonDegIn (l : list Z).
 
 Definition mem_str (x : string) (l : list string) : bool := existsb (String.eqb x) l.
@@ -39,6 +39,7 @@ Definition atom_call (a : atom) (o : obs) : bool :=
   | AChordBeatIn l => mem_z (o_cbeat o) l
   | AChordBeatBetween a b => (a <=? o_cbeat o) && (o_cbeat o <? b)
   | AChordDurIn l => mem_z (o_cdur o) l
+  | AChordBeatPlayingIn l => existsb (fun b => (o_cbeat o <=? b) && (b <? o_cbeat o + o_cdur o)) l
   | AModeIn l => existsb (mode_eqb (o_mode o)) l
   | ADegreeIn l => mem_z (o_degree o) l
   | AExtIn l => mem_str (o_ext o) l
